@@ -43,8 +43,24 @@ def _param_roles(ctx, body):
     return out
 
 
-def _classify(val):
+def _through_collect(ctx, body, v):
+    """`param.into_iter().collect()` (a setter generalised to `impl IntoIterator`) is the
+    parameter's elements in the parameter's order: the parameter"""
+    for _ in range(3):
+        v = strip_wrap(v)
+        if v[0] == "call" and body is not None and v[1][0] == body.path and v[2] in ("std::iter::Iterator::collect", "std::iter::IntoIterator::into_iter", "std::iter::FromIterator::from_iter", "std::convert::Into::into", "std::convert::From::from"):
+            t = body.blocks[v[1][1]]["term"]
+            if t["k"] == "call" and len(t["args"]) == 1:
+                v = ctx.prog.bp(body).arg_term(v[1][1], 0)
+                continue
+        break
+    return v
+
+
+def _classify(val, ctx=None, body=None):
     v = strip_wrap(val)
+    if ctx is not None:
+        v = strip_wrap(_through_collect(ctx, body, v))
     if v == ("param", 2):
         return "param"
     if v[0] == "agg" and v[1] == "vec" and tuple(v[2]) == (("param", 2),):
@@ -70,12 +86,12 @@ def _setter_effects(ctx, b):
             for f, v in zip(ret[3], ret[2]):
                 if v == ("field", ("param", 1), f):
                     continue
-                eff[f] = _classify(v)
+                eff[f] = _classify(v, ctx, b)
         if ret[0] == "over":
             base = ret[1]
             for pn, v in ret[2]:
                 if len(pn) == 1 and pn[0][0] == "f":
-                    eff[pn[0][1]] = _classify(v)
+                    eff[pn[0][1]] = _classify(v, ctx, b)
                 else:
                     eff[".".join(str(x[1]) for x in pn)] = "other:nested"
         seq = {}
